@@ -242,6 +242,11 @@ def fixed_cases():
         for joined in (True, False):
             out.append(dict(base, prog="for_break", out="new", invalid=None,
                             opts=[(n, v, joined) for n, v in zip(("unparser", "expr_wrapper", "if_style"), key)]))
+    # ... and every pool program under every option combination (the text must evaluate like the script)
+    for i, prog_name in enumerate(sorted(pool.POOL)):
+        for j, key in enumerate(env.ALL_CFGS):
+            out.append(dict(base, prog=prog_name, out=("new", "stdout", "existing")[(i + j) % 3], invalid=None,
+                            opts=[(n, v, (i + j) % 2 == 0) for n, v in zip(("unparser", "expr_wrapper", "if_style"), key)]))
     return out
 
 
